@@ -31,7 +31,10 @@ RULE = ('histories of k<=6 raw edits on one live tree per corpus program, refuse
         'the first two letters, every gap collapsed / widened / turned into a continuation, names renamed or parenthesised); '
         'every block kind nested in every block kind (and `match` between two others) with the innermost last statement edited '
         'so that it ends before / at / after the end of the put text; raw node puts with `to=` a later node (same statement, '
-        'later `;` statement on the same line, later line); expression roots judged by ast.parse(mode="eval"); before EVERY step loc/bloc/pars() of every node are read (caches '
+        'later `;` statement on the same line, later line); raw-mode slice puts (put_slice(..., raw=True)) to `_body`, orelse, '
+        'finalbody, handlers and cases - every [start:stop) of templates with decorated defs/classes, docstrings and trailing '
+        'comments x every replacement text, the replaced rectangle taken from CPython positions (first decorator .. end of the '
+        'last element with the trailing comment of a block); expression roots judged by ast.parse(mode="eval"); before EVERY step loc/bloc/pars() of every node are read (caches '
         'populated), every put_src coordinate is spelled at random as plain / negative from the end of the source or of its '
         'own line / "end" / out of range, get_src with the same spelling is compared with plain Python slicing, replacement '
         'texts include equal-UTF-8-bytes/other-characters and equal-characters/other-bytes swaps of names and strings, raw node '
@@ -58,7 +61,8 @@ TRUSTED = [
     'inputs of the model taken from pfst helper functions, not modelled: parent_stmtlike, find_contains_loc, is_elif, bloc, '
     '_loc_block_header_end, _get_block_indent, syntax_ordered_children; _put_src text effect modelled at spec level (one '
     'formula); _offset is modelled in Pfst/Offset.lean (C11) and linked by movePos_eq_offsetPos',
-    'not modelled: the cache flushing done by _offset (judged only by the per-node .loc/.bloc check after every step); the '
+    'not modelled: the location functions of raw node and slice puts (_loc_slice_raw_put_*; judged by comparing the rectangle '
+    'actually replaced with the one CPython positions give, for statement-list fields); the cache flushing done by _offset (judged only by the per-node .loc/.bloc check after every step); the '
     'mode="all" retry for non-module roots, parse_match_case / parse_ExceptHandler (special path: text compared, result judged only by the full '
     'parse), _set_ast / cache maintenance, the f/t-string parent rule of _reparse_raw, argument validation of raw puts',
     'the header-only graft keeps "field absent" and "empty list" apart (Pfst.Raw.Blocks); the header-end guard of fix C10-F9 is '
@@ -174,6 +178,7 @@ def _witness(r):
     return {'src': r['src'], 'op': r['op'], 'rect': r['rect'], 'new': r['new'],
             **({'node_path': r['node_path']} if 'node_path' in r else {}),
             **({'to_path': r['to_path']} if 'to_path' in r else {}),
+            **({'slice': r['slice']} if 'slice' in r else {}),
             **({'history': r['history']} if r.get('history') else {}),
             **({'spelled': r['spelled']} if r.get('spelled') and r['spelled'] != r['rect'] else {})}
 
@@ -360,6 +365,10 @@ def _exec_witness(w, rec):
     rid = id(root)
     if w['op'] == 'put_src':
         call = lambda: root.put_src(w['new'], *w['rect'], 'reparse')
+    elif w['op'] == 'raw-slice':
+        cont = root.child_from_path(_astpath(w['node_path'])) if w['node_path'] else root
+        r['node_path'], r['slice'] = w['node_path'], w['slice']
+        call = lambda: cont.put_slice(w['new'], w['slice'][1], w['slice'][2], w['slice'][0], raw=True)
     elif w['op'] == 'raw-put-to':
         node, to = root.child_from_path(_astpath(w['node_path'])), root.child_from_path(_astpath(w['to_path']))
         r['node_path'], r['to_path'] = w['node_path'], w['to_path']
@@ -511,6 +520,18 @@ def _histories(ctx):
     return recs
 
 
+def _slice_family(ctx):
+    """raw-mode slice puts to statement-list fields: every [start:stop) x every replacement text, one per fresh tree"""
+    edits = ops.slice_edits()
+    res = pmap(ops.run_sequence, [(src, 0, 0, ['put_src'], [e]) for src, e, _ in edits])
+    recs = []
+    for (src, e, label), lst in zip(edits, res):
+        for r in lst:
+            r['rk'], r['nk'] = label, 'slice-text'
+            recs.append(r)
+    return recs
+
+
 def _header_family(ctx):
     """every block statement kind x optional blocks x nesting: edits wholly inside the header, one per fresh tree"""
     edits = ops.header_edits() + ops.span_edits() + ops.tail_chain_edits()
@@ -614,9 +635,10 @@ def sweep(ctx):
     _account(ctx, _pipeline(ctx, _directed(ctx)), 'directed edits (every wrapper family / graft variant) vs Pfst.Raw')
     _account(ctx, _pipeline(ctx, _histories(ctx)), 'scripted histories (refused and accepted edits at different places) vs Pfst.Raw')
     _account(ctx, _pipeline(ctx, _header_family(ctx)), 'header edits (every block kind x optional blocks x nesting) vs Pfst.Raw')
+    _account(ctx, _pipeline(ctx, _slice_family(ctx)), 'raw slice puts to statement-list fields vs Pfst.Raw')
     _expr_roots(ctx)
     progs = _programs(ctx, 160 if q else 1200, 12 if q else 150)
-    mix = ['put_src'] * 7 + ['raw-put'] * 2 + ['raw-put-to', 'reparse']
+    mix = ['put_src'] * 7 + ['raw-put'] * 2 + ['raw-put-to', 'raw-slice', 'reparse']
     recs = _gather(ctx, progs, 6, 6 if q else 9, mix)
     triples = _pipeline(ctx, recs)
     _account(ctx, triples, 'raw reparse (wrapper, path, deltas, return, accept, tree) vs Pfst.Raw')
